@@ -127,6 +127,47 @@ def registered_with_signature(ctx: Ctx, rule: str) -> int:
 
 
 
+def dedup_complete(ctx: Ctx, rule: str) -> int:
+    """the order-preserving de-duplication helpers of the analysis (one list in, one list out, a loop with a membership test) return every
+    distinct element once, in order of first appearance - decided by abstract evaluation on sample lists"""
+    from ..absint import Evaluator, Const
+    rep = ctx.report
+    prog = ctx.prog
+    n = 0
+    for f in prog.funcs.values():
+        if f.module.name not in ("dds.introspect", "dds._introspect_indirect", "dds.structures_utils") or len(f.positional_params()) != 1 or f.cls is not None:
+            continue
+        p0 = f.positional_params()[0]
+        loops = [x for x in f.own_nodes() if isinstance(x, ast.For) and isinstance(x.iter, ast.Name) and x.iter.id == p0]
+        tests = [x for x in f.own_nodes() if isinstance(x, ast.Compare) and len(x.ops) == 1 and isinstance(x.ops[0], (ast.In, ast.NotIn))]
+        apps = [x for x in f.own_nodes() if isinstance(x, ast.Call) and isinstance(x.func, ast.Attribute) and x.func.attr == "append"]
+        if not (loops and tests and apps):
+            continue
+        samples = [["a", "b", "a", "c", "b"], ["x"], [], ["p", "p", "q"]]
+        bad, und = [], []
+        for smp in samples:
+            want = list(dict.fromkeys(smp))
+            try:
+                outs = Evaluator(prog).run(f, [Const(list(smp))])
+            except Exception as e:
+                und.append(f"{smp}: {type(e).__name__}: {e}")
+                continue
+            got = {repr(o.value.v) if o.kind == "return" and isinstance(o.value, Const) else (repr([getattr(x, 'v', x) for x in o.value]) if o.kind == "return" and isinstance(o.value, list) else f"{o.kind}:{o.exc or o.value}") for o in outs}
+            if got != {repr(want)}:
+                bad.append(f"{f.name}({smp}) gives {sorted(got)}, expected {want}")
+        if und and not bad:
+            rep.info(rule, f.qname, f"{f.name}: not evaluated abstractly ({und[0]})", f.loc())
+            continue
+        n += 1
+        desc = f"{f.name} returns every distinct element once, in order of first appearance"
+        if bad:
+            rep.bad(rule, f.qname, desc, f.loc(), bad + ["a function that loads two paths keeps only the first one in its signature: it is served from the store although the second path now "
+                    "serves another result"], "dedup", what=f"{f.name} drops distinct elements")
+        else:
+            rep.ok(rule, f.qname, desc + f" ({len(samples)} sample lists)", f.loc())
+    return n
+
+
 def run(ctx: Ctx) -> None:
     rep = ctx.report
     prog = ctx.prog
@@ -497,6 +538,13 @@ def run(ctx: Ctx) -> None:
                                 "a function that loads the same path twice contributes two equal pairs, which cancel: the reader's signature no longer depends on the path"],
                                 stmt_key(n), what="duplicate loads cancel out of the reader's signature")
     rep.floor("C09.R6", n6, 1)
+    rep.rule("C09.R14", "every path a function loads enters its signature: the de-duplication of the loaded paths keeps every distinct path (abstract evaluation on sample lists)")
+    n14 = dedup_complete(ctx, "C09.R14")
+    rep.floor("C09.R14", n14, 0)
+    from . import visitors as _vis
+    rep.rule("C09.R15", "as C01.R2: the visitors of both passes descend into every node (a dds.load / dds.keep written in argument position of another call is seen)")
+    n15 = _vis.traversal_complete(ctx, "C09.R15")
+    rep.floor("C09.R15", n15, 5)
 
 
 def _assigned(f: Func) -> set:
